@@ -130,6 +130,7 @@ def run(S):
     S.prove('C16.c.bounded_by_capacity', E, [kind == V('Total')], z3.And(rv.t <= tot_c, rv.t <= tot_m),
             'for a channel of known capacity the usable maximum never exceeds the capacity nor htlc_maximum_msat', [b])
     S.no_panic('C16.c.nopanic', E, [], 'max_htlc_from_capacity is total', [b])
+    path_fees(S, D)
 
 
 def path_fees(S, D):
@@ -217,7 +218,7 @@ def path_fees(S, D):
         def line_fn(v, N=N):
             return ' '.join(str(x) for x in [v[0], N] + list(v[1:]))
         b = Binding('recompute_fees_probe', flat, [rv.t] + fee, panic=panic, line_fn=line_fn,
-                    domain=[(1, 1 << 40)] + [(0, U32), (0, 1 << 19), (0, 1 << 40), (0, 1 << 40)] * N, interesting=[1000000, 1 << 40])
+                    domain=[(1, 1 << 40)] + [(0, U32), (0, 1 << 19), (0, 1 << 40), (0, 1 << 40)] * N, interesting=[1000000, 1 << 40], via_solver=True)
         if N > 1:
             S.prove(ids[0], E, pre + [ret], z3.And(*[fee[j] >= policy_fee(A[j + 1], j + 1) for j in range(N - 1)]),
                     'every forwarding node is paid at least the fee its advertised policy requires for the amount it actually forwards: fee_msat[j] >= base + prop * (amount carried by the next channel) / 10^6, where that amount is everything paid from the next hop on (including what the final hop overpays to meet its htlc_minimum)',
